@@ -162,7 +162,10 @@ WsCases(zzdummy) ==
 Probe == <<0, 1, 8, 11, 12, 27, 31, 1635, 178, 189, 9312, 65297, 120783, 3047, 65313, 233, 1072, 160, 12288, 8232, 133, 8203, 65279, 127, 128, 769, 8255>>
 Entry == <<45, 49, 48, 97, 95, 34, 39, 96, 38, 124, 60, 61, 33, 91, 46, 64, 32, 42, 58, 44>>
 Frames == << <<<<>>, <<>>>>, <<<<64, 91>>, <<93>>>>, <<<<97, 91>>, <<58, 93>>>>, <<<<97, 91, 58>>, <<93>>>>,
-             <<<<97, 91, 63, 98, 32, 61, 61, 32>>, <<93>>>>, <<<<97, 46>>, <<>>>> >>
+             <<<<97, 91, 63, 98, 32, 61, 61, 32>>, <<93>>>>, <<<<97, 46>>, <<>>>>,
+             \* inside a JSON literal, right after the opening and right before the closing backtick (only the four JSON blanks may pad a literal),
+             \* and inside a raw string and a quoted identifier
+             <<<<>>, <<96>>>>, <<<<96>>, <<96>>>>, <<<<97, 32, 61, 61, 32, 96>>, <<96>>>>, <<<<39>>, <<39>>>>, <<<<34>>, <<34>>>> >>
 UniCases(zzdummy) ==
   LET cells == SetToSeq({<<c, u, f, k>> : c \in DOMAIN Entry, u \in DOMAIN Probe, f \in DOMAIN Frames, k \in 1..3})
       tail(c, k) == CASE k = 1 -> <<>> [] k = 2 -> <<53>> [] k = 3 -> <<Entry[c]>>
